@@ -1,9 +1,345 @@
 import Pandora.Drv.Util
+import Pandora.Model.C19
+import Pandora.Spec.C19
 
+/-!
+C19 model driver: for one input line of harness/cmd/c19 computes the model's prediction of the observation and the
+Spec's verdict on what the real code did. Library behaviour the model cannot exhibit (does this random byte string
+parse as JSON, the in-flight call of a server that goes away) is predicted as `-`; the Spec still judges it.
+-/
 namespace Pandora.Drv.C19
-open Pandora.Drv
+open Pandora.Drv Pandora.Model.C10 Pandora.Model.C19
 
-/-- stub: replaced when the property's model driver is written -/
-def handle : Handler := fun _ _ => ("-", "skip:not-built")
+def bytesOfHex (s : String) : Option (List Char) :=
+  (parseHex s).map fun bs => bs.map fun b => Char.ofNat b.toNat
+
+def hexOfChars (cs : List Char) : String := toHex (cs.map fun c => UInt8.ofNat c.toNat)
+
+def strOfHex (s : String) : Option String := do
+  let bs ← parseHex s
+  String.fromUTF8? (ByteArray.mk bs.toArray)
+
+def hexOfStr (s : String) : String := toHex s.toUTF8.toList
+
+/-! modifiers -/
+
+/-- `lo | up | s1:a | s2:a:b | rp:hexold:hexnew | bad`; `none` inside = the text does not parse as a modifier -/
+def parseMod (s : String) : Option (Option Modifier) :=
+  match s.splitOn ":" with
+  | ["lo"] => some (some .lower)
+  | ["up"] => some (some .upper)
+  | ["s1", a] => a.toInt?.map fun a => some (.substr a 0)
+  | ["s2", a, b] => do pure (some (.substr (← a.toInt?) (← b.toInt?)))
+  | ["rp", o, n] => do pure (some (.replace (← bytesOfHex o) (← bytesOfHex n)))
+  | ["bad"] => some none
+  | _ => none
+
+/-- `some none`: the chain contains an unknown modifier (config error at every Process call) -/
+def parseMods (s : String) : Option (Option (List Modifier)) := do
+  let ms ← (splitList s "/").mapM parseMod
+  pure (ms.mapM id)
+
+def chainIsBytewise (ms : List Modifier) : Bool :=
+  ms.all fun
+    | .lower => false
+    | .upper => false
+    | .replace o _ => !o.isEmpty
+    | .substr _ _ => true
+
+def handleMod (kv : List (String × String)) (impl : String) : String × String :=
+  match parseMods (getS kv "mods"), bytesOfHex (getS kv "val") with
+  | some mods, some val =>
+    let v := Spec.C19.judgeCall impl
+    match mods with
+    | none => ("err", v)
+    | some ms =>
+      if val.isEmpty then ("unset", v)
+      else if getS kv "bin" == "1" && !chainIsBytewise ms then ("-", v)
+      else match applyChain ms val with
+        | .ok r => ("ok:" ++ hexOfChars r, v)
+        | .panic w => ("PANIC " ++ w, v)
+  | _, _ => ("-", "fail:driver:unparsable input")
+
+/-! bodies -/
+
+def jsonBody : String := "{\"result\":\"ok\",\"token\":\"abcdef\",\"items\":[1,2,3],\"a\":{\"b\":\"c\"}}"
+def badJsonBody : String := "{\"result\": \"ok\", \"items\": [1,2,"
+def htmlBody : String := "<html><head><title>T</title></head><body><div class=\"data\">v1</div><div class=\"data\">v2</div><a href=\"/x\">one</a></body></html>"
+def badHtmlBody : String := "<html><div class=\"data\">unclosed <<<< <a href=</bod"
+
+inductive Body where
+  | lit (s : List Char)
+  | filler (n : Nat)
+
+def natAfter (pfx : String) (s : String) : Option Nat :=
+  if pfx.toList.isPrefixOf s.toList then (String.ofList (s.toList.drop pfx.length)).toNat? else none
+
+def bodyOfClass (c : String) : Option Body :=
+  match c with
+  | "json" => some (.lit jsonBody.toList)
+  | "badjson" => some (.lit badJsonBody.toList)
+  | "html" => some (.lit htmlBody.toList)
+  | "badhtml" => some (.lit badHtmlBody.toList)
+  | "empty" => some (.lit [])
+  | _ => (natAfter "x" c).map .filler
+
+def Body.len : Body → Nat
+  | .lit s => s.length
+  | .filler n => n
+
+def Body.has (b : Body) (pat : String) : Bool :=
+  match b with
+  | .lit s => isInfix pat.toList s
+  | .filler n => pat.toList.all (· == 'x') && pat.length ≤ n
+
+/-- `jsonpath.Get` on the fixed JSON body, by path id -/
+def jsonGetById (id : String) : Bool := id != "missing"
+
+def trimWS (cs : List Char) : List Char :=
+  let f := fun (l : List Char) => l.dropWhile fun c => c == ' ' || c == '\t'
+  (f (f cs).reverse).reverse
+
+/-- the response a script delivers (only meaningful when its truth token is `r<status>`) -/
+structure ScriptInfo where
+  headers : List (String × List Char) := []
+  body : Body := .lit []
+  jsonClass : Bool := false
+
+def parseScript (s : String) : ScriptInfo :=
+  (s.splitOn ".").foldl (init := {}) fun acc f =>
+    if f.startsWith "act" then acc
+    else if f.startsWith "h" then
+      match (String.ofList (f.toList.drop 1)).splitOn "~" with
+      | [name, hx] => { acc with headers := acc.headers ++ [(name, trimWS ((bytesOfHex hx).getD []))] }
+      | _ => acc
+    else if f.startsWith "v" then
+      match (String.ofList (f.toList.drop 1)).splitOn "~" with
+      | [name, n] => { acc with headers := acc.headers ++ [(name, List.replicate (n.toNat?.getD 0) 'v')] }
+      | _ => acc
+    else if f.startsWith "b" then
+      let c := String.ofList (f.toList.drop 1)
+      { acc with body := (bodyOfClass c).getD (.lit []), jsonClass := c == "json" }
+    else acc
+
+def respOf (status : Nat) (si : ScriptInfo) : Resp :=
+  { status := status
+    header := fun name => ((si.headers.find? (·.1 == name)).map (·.2)).getD []
+    bodyLen := si.body.len
+    bodyHas := si.body.has
+    jsonOk := si.jsonClass
+    jsonGet := jsonGetById }
+
+def replyOf (truth : String) (script : String) : Reply :=
+  match natAfter "rbx" truth, natAfter "rb" truth, natAfter "r" truth with
+  | some st, _, _ => .brokenBody st .other
+  | none, some st, _ => .brokenBody st .other
+  | none, none, some st => .full (respOf st (parseScript script))
+  | none, none, none => .noResponse .other
+
+/-! direct calls -/
+
+def parseHexList (s : String) : Option (List String) := (splitList s ",").mapM strOfHex
+
+def parseSize (s : String) : Option (Option (Nat × SizeOp)) :=
+  if s == "-" || s == "" then some none
+  else match s.splitOn ":" with
+    | [op, v] => do
+      let o : SizeOp := match op with | "eq" => .eq | "lt" => .lt | "gt" => .gt | _ => .unknown
+      pure (some (← v.toNat?, o))
+    | _ => none
+
+def parseNamed (s : String) : Option (List (String × List Char)) :=
+  (splitList s ",").mapM fun kvs =>
+    match kvs.splitOn ":" with
+    | [k, v] => (bytesOfHex v).map fun b => (k, b)
+    | _ => none
+
+def postStr : PostRes → String
+  | .ok => "ok"
+  | .err => "err"
+  | .panic => "PANIC"
+
+def handleAssert (kv : List (String × String)) (impl : String) : String × String :=
+  match parseHexList (getS kv "pats"), parseNamed (getS kv "hdrs"), parseNamed (getS kv "chk"), parseSize (getS kv "size"),
+      bytesOfHex (getS kv "body") with
+  | some pats, some hdrs, some chk, some size, some body =>
+    let a : AssertCfg := { headers := chk, body := pats, statusCode := (getN? kv "cfgst").getD 0, size := size }
+    let r : Resp := { status := (getN? kv "st").getD 200
+                      header := fun n => ((hdrs.find? (·.1 == n)).map (·.2)).getD []
+                      bodyLen := body.length
+                      bodyHas := fun p => isInfix p.toList body
+                      jsonOk := false, jsonGet := fun _ => false }
+    (postStr (assertHttp a r), Spec.C19.judgeCall impl)
+  | _, _, _, _, _ => ("-", "fail:driver:unparsable input")
+
+def handleGAssert (kv : List (String × String)) (impl : String) : String × String :=
+  match parseHexList (getS kv "pats") with
+  | some pats =>
+    let outNil := getS kv "out" == "nil"
+    let hello := if outNil then [] else ((bytesOfHex (getS kv "out")).getD [])
+    let a : GrpcAssert := { payload := pats, statusCode := (getN? kv "cfgst").getD 0 }
+    (postStr (assertGrpc a ((getN? kv "code").getD 0) outNil (fun p => isInfix p.toList hello)), Spec.C19.judgeCall impl)
+  | none => ("-", "fail:driver:unparsable input")
+
+def xkindOf (s : String) : Option XKind :=
+  match s with
+  | "nodeSet" => some .nodeSet
+  | "scalar" => some .scalar
+  | "invalid" => some .invalid
+  | _ => none
+
+def exprKind (id : String) : Option XKind :=
+  if ["divdata", "href", "title", "deep", "none"].contains id then some .nodeSet
+  else if ["count", "string", "arith", "bool"].contains id then some .scalar
+  else if ["bad", "bad2"].contains id then some .invalid
+  else none
+
+def handleXpath (kv : List (String × String)) (impl : String) : String × String :=
+  match xkindOf (getS kv "kind") with
+  | some k => (postStr (varXpath [k]), Spec.C19.judgeCall impl)
+  | none => ("-", "fail:driver:unparsable input")
+
+def handleJsonpath (kv : List (String × String)) (impl : String) : String × String :=
+  let body := getS kv "body"
+  let v := Spec.C19.judgeCall impl
+  if body.startsWith "raw:" then ("-", v)
+  else
+    let r : Resp := { status := 200, header := fun _ => [], bodyLen := 0, bodyHas := fun _ => false,
+                      jsonOk := body == "json", jsonGet := jsonGetById }
+    (postStr (varJsonpath [getS kv "path"] r), v)
+
+/-! engine runs -/
+
+def parsePP (tok : String) : Option (Option PP) :=     -- `some none` = "tpl" marker (not a postprocessor)
+  match tok.splitOn "~" with
+  | ["-"] => some none
+  | ["tpl"] => some none
+  | ["H", hdr] => some (some (.varHeader [{ header := hdr, mods := some [] }]))
+  | ["H", hdr, mods] => (parseMods mods).map fun ms => some (.varHeader [{ header := hdr, mods := ms }])
+  | ["A", st, pat, hdr, size] => do
+    let body ← if pat == "-" then some [] else (strOfHex pat).map fun p => [p]
+    let hs ← if hdr == "-" then some [] else parseNamed hdr
+    let sz ← parseSize size
+    pure (some (.assertResponse { headers := hs, body := body, statusCode := ← st.toNat?, size := sz }))
+  | ["J", id] => some (some (.varJsonpath [id]))
+  | ["X", id] => (exprKind id).map fun k => some (.varXpath [k])
+  | _ => none
+
+def aggregate (samples : List Sample) : String :=
+  let keys := samples.map fun s => hexOfStr s.tags ++ ":" ++ toString s.proto ++ ":" ++ (if s.net == 0 then "0" else "nz")
+  let sorted := (keys.toArray.qsort (· < ·)).toList
+  let rec group : List String → List (String × Nat) → List (String × Nat)
+    | [], acc => acc.reverse
+    | k :: ks, (k', n) :: acc => if k == k' then group ks ((k', n + 1) :: acc) else group ks ((k, 1) :: (k', n) :: acc)
+    | k :: ks, [] => group ks [(k, 1)]
+  String.intercalate "," ((group sorted []).map fun (k, n) => k ++ "*" ++ toString n)
+
+def fmtRun (r : InstanceRun) (fatalWhy : String) : String :=
+  let res := match r.result with | .finished => "ok" | .poolFailed => fatalWhy
+  s!"res={res} n={r.samples.length} s={aggregate r.samples}"
+
+def replicate {α} (n : Nat) (l : List α) : List α := (List.replicate n l).flatten
+
+def implRes (impl : String) : String × Nat :=
+  let ikv := parseKV impl
+  (getS ikv "res", (getN? ikv "n").getD 0)
+
+def handleRun (kv : List (String × String)) (impl : String) : String × String :=
+  let (res, n) := implRes impl
+  let noCfg : AutoTagCfg := { enabled := false, uriElements := 2, noTagOnly := true }
+  match getS kv "gun" with
+  | "http" | "connect" | "http2" =>
+    let h2 := getS kv "gun" == "http2"
+    let lacks := getS kv "tgt" == "tls1"
+    let dead := getS kv "tgt" == "dead"
+    let reqs := splitList (getS kv "reqs") ","
+    let cycle : List GunShot := (List.range reqs.length).map fun i =>
+      let (script, truth) := match (reqs[i]!).splitOn ":" with
+        | [s, t] => (s, t)
+        | _ => ("", "f")
+      let reply := if dead then Reply.noResponse .other else replyOf truth script
+      .http h2 lacks noCfg s!"r{i}" (i + 1) s!"/p/{i}" reply
+    let m := (getN? kv "m").getD 1
+    let shots := replicate m cycle
+    let run := instanceRun (shots.map GunShot.run)
+    let fatal := shots.any GunShot.documentedFatal
+    (fmtRun run "panic:not-http2", Spec.C19.judgeRun fatal shots.length shots.length shots.length res n)
+  | "http/scenario" =>
+    let parsed := (splitList (getS kv "steps") ";").mapM fun st =>
+      match st.splitOn "," with
+      | [name, script, truth, pps] => do
+        let toks := splitList pps "+"
+        let ps ← toks.mapM parsePP
+        let cfg : StepCfg := { name := name, prepFails := toks.contains "tpl", pps := ps.filterMap id }
+        let reply := if getS kv "tgt" == "dead" then Reply.noResponse .other else replyOf truth script
+        pure (cfg, reply)
+      | _ => none
+    match parsed with
+    | none => ("-", "fail:driver:unparsable steps")
+    | some steps =>
+      let shotsN := (getN? kv "n").getD 1
+      let shots := List.replicate shotsN (GunShot.scenario "scn" steps)
+      let run := instanceRun (shots.map GunShot.run)
+      (fmtRun run "panic:unexpected", Spec.C19.judgeRun false shotsN shotsN (shotsN * steps.length) res n)
+  | "grpc" =>
+    let parsed := (splitList (getS kv "reqs") ",").mapM fun r =>
+      match r.splitOn ":" with
+      | [kind, code] => do
+        let c ← code.toNat?
+        match kind with
+        | "ok" => some (GrpcOutcome.invoked 0)
+        | "code" => some (.invoked c)
+        | "hang" => some (.invoked 4)
+        | "nomethod" => some .unknownMethod
+        | "badpayload" => some .badPayload
+        | _ => none
+      | _ => none
+    match parsed with
+    | none => ("-", "fail:driver:unparsable reqs")
+    | some outs =>
+      let cycle : List GunShot := (List.range outs.length).map fun i => .grpc s!"r{i}" (outs[i]!)
+      let shots := replicate ((getN? kv "m").getD 1) cycle
+      let run := instanceRun (shots.map GunShot.run)
+      let v := Spec.C19.judgeRun false shots.length shots.length shots.length res n
+      if (lookup kv "stopafter").isSome then ("-", v) else (fmtRun run "panic:unexpected", v)
+  | "grpc/scenario" =>
+    let parsed := (splitList (getS kv "calls") ";").mapM fun c =>
+      match c.splitOn "," with
+      | [tag, kind, code, pp] => do
+        let cd ← code.toNat?
+        let asserts : List GrpcAssert ←
+          if pp == "-" then some []
+          else match natAfter "as" ((pp.splitOn ":").headD ""), pp.splitOn ":" with
+            | some st, [_] => some [{ statusCode := st }]
+            | some st, [_, pat] => (strOfHex pat).map fun p => [{ payload := [p], statusCode := st }]
+            | _, _ => none
+        let k : GrpcCallKind := match kind with
+          | "nomethod" => .unknownMethod
+          | "badpayload" => .badPayload
+          | _ => .callable
+        let reply : GrpcReply := { code := if kind == "code" then cd else if kind == "hang" then 4 else 0
+                                   payloadHas := fun p => isInfix p.toList "Hello verif!".toList }
+        pure (({ tag := tag, kind := k, asserts := asserts } : GrpcCallCfg), reply)
+      | _ => none
+    match parsed with
+    | none => ("-", "fail:driver:unparsable calls")
+    | some calls =>
+      let shotsN := (getN? kv "n").getD 1
+      let shots := List.replicate shotsN (GunShot.grpcScenario "gscn" calls)
+      let run := instanceRun (shots.map GunShot.run)
+      (fmtRun run "panic:unexpected", Spec.C19.judgeRun false shotsN shotsN (shotsN * calls.length) res n)
+  | _ => ("-", "fail:driver:unknown gun")
+
+def handle : Handler := fun input impl =>
+  let kv := parseKV input
+  if impl == "HANG" then ("-", "fail:hang:driver case timed out")
+  else match getS kv "k" with
+  | "mod" => handleMod kv impl
+  | "assert" => handleAssert kv impl
+  | "gassert" => handleGAssert kv impl
+  | "xpath" => handleXpath kv impl
+  | "jsonpath" => handleJsonpath kv impl
+  | "run" => if impl.startsWith "PANIC" then ("-", s!"fail:panic:{impl.take 160}") else handleRun kv impl
+  | _ => ("-", "fail:driver:unknown case kind")
 
 end Pandora.Drv.C19
